@@ -1,3 +1,5 @@
+//go:build all || c04
+
 package props
 
 import (
